@@ -297,6 +297,18 @@ void SubprocessSet::Clear() {
     std::queue<Subprocess*> q = finished_;
     while (!q.empty()) { g_cur.res->cmds[q.front()->pid_].unreaped = true; q.pop(); }
   }
+  if (interrupted_ == 0) {
+    // Not a signal: the build is given up because of an error (or because a *command* died of the interrupt signal).
+    // The real Clear() then sends "signal 0", i.e. nothing, and ~Subprocess waits for every command: they run to
+    // completion, unobserved (ninja looks at no result any more and cleans up after them as after interrupted ones).
+    for (Subprocess* s : running_) {
+      FinishCmd(s->pid_);
+      g_cur.res->cmds[s->pid_].unreaped = true;
+      delete s;
+    }
+    running_.clear();
+    return;
+  }
   for (Subprocess* s : running_) {
     RunCmd& rc = g_cur.res->cmds[s->pid_];
     rc.killed = true;
